@@ -20,6 +20,11 @@ func VerifOnReadRtcp(s *BaseInSession, b []byte) {
 	_ = s.handleRtcpPacket(b, nil)
 }
 
+// VerifOnReadRtcpFrom: a datagram on an RTCP socket (UDP transport), with its source address.
+func VerifOnReadRtcpFrom(s *BaseInSession, b []byte, from *net.UDPAddr) {
+	_ = s.handleRtcpPacket(b, from)
+}
+
 // VerifBaseIn exposes the embedded in-session of a publisher.
 func VerifBaseIn(p *PubSession) *BaseInSession { return p.baseInSession }
 
